@@ -731,6 +731,8 @@ func runC06(w *World, r *Report) {
 		// the starting tip is itself poured and is the walk's start
 		r.check(len(pcs) >= 2, "balance-shape", "CalculateBalance/tip-poured", w.Pos(fn.Pos()), "the tip itself is counted", "fewer than two pourFunds calls")
 	}
+	checkpointPruneAtomic(w, r)
+
 	// funds lock mode
 	li := ComputeLocks(w, acctScope)
 	r.rule("read-lock-only", "read entry points hold the ledger lock in read mode while they touch the DAG", 3)
@@ -1007,6 +1009,8 @@ func runC07(w *World, r *Report) {
 			r.check(okv != nil && skipped == 0, "checkpoint-writes-every-address", "saveToStorage/every-address", lineOf(w, next), "every ranged address reaches the save callback with its own key", fmt.Sprintf("%d ways to the next iteration without writing", skipped))
 		}
 	}
+
+	storageWriters(w, r, "storage-only-what-is-pruned")
 
 	r.rule("no-dropped-drain-error", "in ledger accounting no insufficient-funds error of Drain / Transfer is dropped (a dropped one stores a wrong checkpoint)", 1)
 	for _, fn2 := range w.RepoFuncs("accountant") {
